@@ -6,6 +6,11 @@
      mode "lonefg" / "lonebg": that set has exactly ONE handler, which scribbles over everything as soon
        as it has recorded its snapshot; the handlers of the other set record only after it has finished
        (channel synchronisation in the harness); no late handler.  gomaxprocs1 = "1": GOMAXPROCS(1).
+     mode "first": any set sizes; handler 0 scribbles (ADDS tags), all others record afterwards.
+     mode "laterbg" / "laterfg" (field 7 = a SECOND line of the same verb): one registration invoked for
+       both events; obs = a0 (entry snapshot of invocation 1), a1 (what invocation 1's line looks like
+       after invocation 2 has scribbled over its own), b (entry snapshot of invocation 2):
+       a0 = a1 = ParseLine(line), b = ParseLine(line 2).
    OBS   = one record per handler in the order f0.. b0.. late:
      [who; nick; ident; host; src; cmd; raw; dec nargs; arg...; "nil" | dec ntags; key; value; ...]
      — the deep snapshot the handler took of its *Line BEFORE scribbling over it (tags sorted by key).
@@ -39,7 +44,21 @@ Definition expected (i : list bytes) : option lval :=
   | Ok (Some l) => Some (lval_of_line l)
   | _ => None
   end.
+Definition mode_later (i : list bytes) : bool :=
+  beq (get i 5) [108;97;116;101;114;98;103]%N || beq (get i 5) [108;97;116;101;114;102;103]%N.
+Definition expected2 (i : list bytes) : option lval :=
+  match parse (get i 7) with
+  | Ok (Some l) => Some (lval_of_line l)
+  | _ => None
+  end.
+Definition who_a0 : bytes := [97;48]%N.  Definition who_a1 : bytes := [97;49]%N.  Definition who_b1 : bytes := [98]%N.
 Definition model_C15 (i : list bytes) : list bytes :=
+  if mode_later i then
+    match expected i, expected2 i with
+    | Some v1, Some v2 => render who_a0 v1 ++ render who_a1 v1 ++ render who_b1 v2
+    | _, _ => [tag_bad]
+    end
+  else
   match expected i with
   | Some v => flat_map (fun w => render w v) (whos (get_nat i 2) (get_nat i 3) (has_late i))
   | None => [tag_bad]
@@ -77,6 +96,12 @@ Fixpoint dec_snaps (fuel : nat) (o : list bytes) : option (list lval) :=
   end.
 
 Definition oracle_C15 (i o : list bytes) : bool :=
+  if mode_later i then
+    match expected i, expected2 i, dec_snaps (S (length o)) o with
+    | Some v1, Some v2, Some [a0; a1; b] => C15_ok v1 [a0; a1] && C15_ok v2 [b]
+    | _, _, _ => false
+    end
+  else
   match expected i, dec_snaps (S (length o)) o with
   | Some v, Some snaps =>
       (length snaps =? get_nat i 2 + get_nat i 3 + (if has_late i then 1 else 0))%nat && C15_ok v snaps
